@@ -29,10 +29,10 @@ CHECKS = {
    text="Each generated program is compiled under plain, spawn and alias macro names and run under identical enumerated failure plans; the oracle is agreement among the three (results; per-branch callback sequences; thread-name signature; first-poll arrival count distinguishing spawned from inline futures), plus type ascription of the expected result type; a child-process run in which every callback uses 256 KiB of stack must complete under all three names or under none. Stage 2 (typed chains): values that are Send but not Sync under the eight spawning macros against a reference that requires Send + 'static only."),
  "C08": dict(level="exploration", engine="R", design="6/C08",
    technique="property-based testing over harness-owned thread schedules: rendezvous at blocking gates, thread identity and name recorded by every callback",
-   text="All gated callbacks of a multi-branch step must arrive while every gate is held closed (a branch waiting for a sibling could not), on distinct non-caller threads with the documented names; single-active steps run on the calling thread; the caller is observed not to continue before the last release. The only wall-clock element is the rendezvous deadline (10 s, confirmed once with 20 s) on the failing path."),
+   text="All gated callbacks of a multi-branch step must arrive while every gate is held closed (a branch waiting for a sibling could not), on distinct non-caller threads with the documented names, also when a custom joiner passes the thread handles through; single-active steps run on the calling thread; the caller is observed not to continue before the last release. The only wall-clock element is the rendezvous deadline (10 s, confirmed once with 20 s) on the failing path."),
  "C09": dict(level="exploration", engine="R", design="6/C09",
    technique="property-based testing under a deterministic executor: manual polling with a flag waker inside a current_thread tokio runtime, gate futures opened in systematically enumerated and randomised orders with batches and spurious polls",
-   text="Laziness (nothing logged before the first poll, nor when dropped unpolled), step-internal concurrency (every active branch reaches its first pending point; an opened branch reaches its next one while siblings are pending), wake-up propagation and completion with the model's value are checked for every generated wake-up order; a hang shows deterministically as 'all gates open, root pending, not notified'. The future is also built and dropped outside any runtime; a quarter of the task-spawning programs use a sequentially awaiting custom joiner (the tasks must run regardless). Multi-threaded tokio schedulers are not explored."),
+   text="Laziness (nothing logged before the first poll, nor when dropped unpolled), step-internal concurrency (every active branch reaches its first pending point; an opened branch reaches its next one while siblings are pending), wake-up propagation and completion with the model's value are checked for every generated wake-up order; a hang shows deterministically as 'all gates open, root pending, not notified'. The future is built in the context of a second, idle runtime and polled on another, and also built and dropped outside any runtime; a quarter of the task-spawning programs use a sequentially awaiting custom joiner (the tasks must run regardless). Multi-threaded tokio schedulers are not explored."),
  "C10": dict(level="exploration", engine="R", design="6/C10",
    technique="property-based testing: event multiset and per-branch callback order of generated programs vs the reference model, clone- and drop-counting tokens",
    text="Every evaluation of a user expression is an event; the multiset of events of a run must equal the model's (exactly once / exactly as often as the method calls it), clone counter 0, no live token after the result is dropped. Stage 2 (typed chains against the documented chain): iterator callbacks per element, fold / try_fold operands, clone- and drop-counted `Ck` values - equal event multisets, equal clone counts, nothing left alive. Stage 3 (library level, engine L): generated structures over all 23 operator spellings in which every user expression carries a unique marker; each marker must occur exactly once in the expansion."),
@@ -47,7 +47,7 @@ CHECKS = {
    text="Legal handler kinds at every position among 1-5 branches under all 12 macro names, failure plans enumerated; handler called exactly once iff documented, with the values in branch order (argument hash), async handler futures run. The same command then runs the library-level half (engine L): every (configuration x handler kind x position) is enumerated - wrong kinds must be rejected, legal ones accepted - and every pair of handlers, plus generated structures with an inserted second handler, must be rejected by the parser."),
  "C18": dict(level="fault_enumeration", engine="R", design="6/C18",
    technique="fault injection enumerated over every evaluation event of generated programs: child processes with catch_unwind (sync / threads), deterministic executor with catch_unwind around each poll (async)",
-   text="Every single event position of each generated program (initial value, operand, callback, capture, handler expression, handler call) is made to panic in turn; the panic must be observed by the caller, no later-step event may exist, and an async future must not be left pending with nothing outstanding."),
+   text="Every single event position of each generated program (initial value, operand, callback, capture, handler expression, handler call) is made to panic in turn, under the all-succeed plan and (except the async try macros) under a plan with one failing callback; the panic must be observed by the caller and no later-step event may exist. Thread-spawning macros: the later siblings of the panicking branch are parked until the caller is back - a caller still blocked after 3 s (confirmed with 12 s) is a violation. Async: once the panic has been raised the future must panic at its next poll without any further pending point being opened, and is never left pending with nothing outstanding."),
  "C14": dict(level="exploration", engine="L", design="6/C14",
    technique="property-based testing (proptest, in process over join_impl): structure round trip - a generated chain structure is rendered to text and the parser must recover exactly it; exhaustive table of adjacent operator pairs",
    text="All 23 operator spellings with every flag combination are enumerated pairwise (about 4 200 inputs) and 40 000 (quick) / 1 000 000 (thorough) random structures with adversarial operands (operator look-alikes inside groups, macros, literals, closure return types, turbofish, nested generics, if / match) are rendered and parsed back; proptest shrinks a failure to a minimal input; the thorough tier adds a coverage-guided libFuzzer stage (12 workers x 300 s) over a structure decoder. Two genuine defects remain open as known findings (bracket-leading operand after `=>`; `let` before a top-level && / || value), one was fixed (table priority)."),
@@ -108,7 +108,7 @@ def main():
         ],
         "checks": checks,
         "not_applicable": na,
-        "notes": "All checks read VERIF_SEED / VERIF_TIER (or --seed / --tier). Exit 0 held, 1 VIOLATION line printed, 2 infrastructure or inconclusive. Fix commits in /repo: ffea8f9 (C05, D1), c046cce (C15, D2); see known_findings.json.",
+        "notes": "All checks read VERIF_SEED / VERIF_TIER (or --seed / --tier). Exit 0 held, 1 VIOLATION line printed, 2 infrastructure or inconclusive. Fix commits in /repo: ffea8f9 (C05), c046cce (C15), 3010633 (C14), 078aaab (C01), 8ddb025 (C16); open findings and fixed entries in known_findings.json.",
     }
     json.dump(m, open(os.path.join(ROOT, "MANIFEST.json"), "w"), indent=1)
     print("MANIFEST.json:", len(checks), "checks,", len(na), "not applicable")
